@@ -283,12 +283,23 @@ def state_key(objs):
     return tuple((idx.get(id(o._parent), -1), tuple(idx.get(id(c), -2) for c in getattr(o, "_children", ()))) for o in objs)
 
 
-def explore_histories(depth, budget, seed):
+def operations_nested():
+    """operations of a collections-centred universe (deep nesting, cycles): indices 0 = one source, 3,4,5 = collections"""
+    keep = []
+    for name, fn in operations():
+        toks = [t for t in name.replace("(", " ").replace(")", " ").replace(",", " ").replace("=", " ").replace(".", " ").replace("[", " ").replace("]", " ").split()]
+        if any(t in ("o1", "o2") for t in toks):
+            continue
+        keep.append((name, fn))
+    return keep
+
+
+def explore_histories(depth, budget, seed, ops=None):
     """BFS over histories with state-hash pruning; returns (evaluations, distinct states, violations[(history, msgs)])"""
     import warnings
 
     warnings.simplefilter("ignore")
-    ops = operations()
+    ops = ops or operations()
     rng = np.random.default_rng(seed)
     frontier = [()]
     seen = {state_key(universe())}
@@ -353,8 +364,14 @@ def main(tier, seed):
                          "parent's list and updates that parent's views (atomic); _update_src_and_sens recomputes the three typed views, cannot raise")
     rep.assume("heap-shape (reachability, exactly-once listing, acyclicity) is NOT proved for all histories: bounded stand-in only")
     fails = transaction_obligations(rep)
-    depth, budget = (3, 25000) if tier == "quick" else (4, 1500000)
+    depth, budget = (3, 16000) if tier == "quick" else (4, 1500000)
     evals, states, bad = explore_histories(depth, budget, seed)
+    d2, b2 = (4, 14000) if tier == "quick" else (5, 400000)
+    e2, s2, bad2 = explore_histories(d2, b2, seed, operations_nested())
+    rep.standin("forest invariant, collections-centred universe (deep nesting, cycle attempts through add / parent= / typed setters)",
+                f"1 source + 3 collections, {len(operations_nested())} operations, history length <= {d2}, budget {b2}", e2, s2,
+                "BFS with state-hash pruning", [dict(history=["c3.add(o4,override=False)", "c4.add(o5,override=False)", "c5.add(o3,override=True)"])], failures=len(bad2))
+    bad = bad + bad2
     rep.standin("forest invariant after every operation over all histories (state-hash pruning)", f"universe 2 sources + 1 sensor + 3 collections, {len(operations())} operations, history length <= {depth}, budget {budget}",
                 evals, states, "BFS over operation histories from the empty forest; distinct = distinct forest shapes reached; every op incl. raising ones is followed by the invariant check",
                 [dict(history=["c3.add(o0,override=False)", "c4.add(o0,o1,override=False)"])], failures=len(bad))
